@@ -4,7 +4,8 @@ import SemVerif.Spec.Traverse
 # Spec/Typed — `TypedStack`: the recorded types of a function stack are mutually consistent (C04)
 
 Mentions only the stack, the function's declared result type and the global tables of the same run.
-F7 reading: register `r+1` after a call / field read writing `r` carries that instruction's type.
+F7 reading: register `r+1` after a call / field read writing `r` carries that instruction's type; a
+register is never written twice with different types.
 The scan is split into the environment it maintains (`tyStepEnv`: the type each register was
 produced with, the value records declared so far) and the checks it makes on every instruction
 (`tyStepBad`, a list of structured tags); `typedStack` numbers the failing checks by position.
@@ -18,6 +19,8 @@ def Attrs.byIndex (i : Nat) : Attrs → Option Ty
 structure TyEnv where
   regs : List (Nat × Ty)
   decls : List Value
+  /-- the registers instructions have written so far, with the type written (no F7 aliases) -/
+  written : List (Nat × Ty) := []
   deriving Inhabited
 
 def TyEnv.reg (e : TyEnv) (r : Nat) : Option Ty := (e.regs.find? (·.1 == r)).map (·.2)
@@ -45,19 +48,22 @@ def fieldTy (v : Value) (idx : Nat) : Option Ty :=
 def tyStepEnv (e : TyEnv) (i : Instr) : TyEnv :=
   match i with
   | .fnArg v _ => { e with decls := v :: e.decls }
-  | .exprValue v r => { e with regs := (r, v.ty) :: e.regs }
-  | .exprConst c r => { e with regs := (r, c.ty) :: e.regs }
+  | .exprValue v r => { e with regs := (r, v.ty) :: e.regs, written := (r, v.ty) :: e.written }
+  | .exprConst c r => { e with regs := (r, c.ty) :: e.regs, written := (r, c.ty) :: e.written }
   | .exprStructValue v idx r =>
     match fieldTy v idx with
-    | some t => { e with regs := (r + 1, t) :: (r, t) :: e.regs }
+    | some t => { e with regs := (r + 1, t) :: (r, t) :: e.regs, written := (r, t) :: e.written }
     | none => e
-  | .exprOp _ _ r reg => { e with regs := (reg, r.ty) :: e.regs }
-  | .call f _ reg => { e with regs := (reg + 1, f.ty) :: (reg, f.ty) :: e.regs }
-  | .ext _ t reg => { e with regs := (reg, .prim t) :: e.regs }
+  | .exprOp _ _ r reg => { e with regs := (reg, r.ty) :: e.regs, written := (reg, r.ty) :: e.written }
+  | .call f _ reg => { e with regs := (reg + 1, f.ty) :: (reg, f.ty) :: e.regs, written := (reg, f.ty) :: e.written }
+  | .ext _ t reg => { e with regs := (reg, .prim t) :: e.regs, written := (reg, .prim t) :: e.written }
   | .letBinding v _ => { e with decls := v :: e.decls }
-  | .condExpr _ _ _ reg => { e with regs := (reg, .prim .bool) :: e.regs }
-  | .logicCond _ _ _ reg => { e with regs := (reg, .prim .bool) :: e.regs }
+  | .condExpr _ _ _ reg => { e with regs := (reg, .prim .bool) :: e.regs, written := (reg, .prim .bool) :: e.written }
+  | .logicCond _ _ _ reg => { e with regs := (reg, .prim .bool) :: e.regs, written := (reg, .prim .bool) :: e.written }
   | _ => e
+
+/-- no instruction has written register `w` with another type before -/
+def TyEnv.wOk (e : TyEnv) (w : Nat) (t : Ty) : Bool := e.written.all fun p => p.1 != w || p.2 == t
 
 inductive TyBad where
   | readDecl | constTable | fieldIndex | fieldNonStruct | fieldDecl
@@ -66,7 +72,7 @@ inductive TyBad where
   | letOperand | letType
   | asgOperand | asgType | asgImmutable | asgDecl
   | cmpLeft | cmpRight | cmpDiffer | cmpNonPrim
-  | condOperand | retOperand | retType
+  | condOperand | retOperand | retType | regRetyped
   deriving DecidableEq, Repr
 
 def TyBad.msg : TyBad → String
@@ -95,6 +101,7 @@ def TyBad.msg : TyBad → String
   | .condOperand => "condition-operand-type"
   | .retOperand => "return-operand-type"
   | .retType => "return-type-differs-from-result-type"
+  | .regRetyped => "register-written-before-with-another-type"
 
 def badIf (c : Bool) (t : TyBad) : List TyBad := if c then [] else [t]
 
@@ -102,27 +109,31 @@ def badIf (c : Bool) (t : TyBad) : List TyBad := if c then [] else [t]
 global table under its name -/
 def tyStepBad (cOk : ConstSem → Bool) (fOk : Func → Bool) (resTy : Ty) (e : TyEnv) (i : Instr) : List TyBad :=
   match i with
-  | .exprValue v _ => badIf (e.declOk v) .readDecl
-  | .exprConst c _ => badIf (cOk c) .constTable
-  | .exprStructValue v idx _ =>
+  | .exprValue v r => badIf (e.declOk v) .readDecl ++ badIf (e.wOk r v.ty) .regRetyped
+  | .exprConst c r => badIf (cOk c) .constTable ++ badIf (e.wOk r c.ty) .regRetyped
+  | .exprStructValue v idx r =>
     match v.ty with
     | .struct _ _ =>
       match fieldTy v idx with
-      | some _ => badIf (e.declOk v) .fieldDecl
+      | some t => badIf (e.declOk v) .fieldDecl ++ badIf (e.wOk r t) .regRetyped
       | none => [.fieldIndex]
     | _ => [.fieldNonStruct]
-  | .exprOp _ l r _ =>
-    badIf (operandOk e l) .opLeft ++ badIf (operandOk e r) .opRight ++ badIf (l.ty == r.ty) .opDiffer
-  | .call f ps _ =>
+  | .exprOp _ l r reg =>
+    badIf (operandOk e l) .opLeft ++ badIf (operandOk e r) .opRight ++ badIf (l.ty == r.ty) .opDiffer ++
+    badIf (e.wOk reg r.ty) .regRetyped
+  | .call f ps reg =>
     badIf (fOk f) .calleeTable ++ badIf (ps.length == f.params.length) .argCount ++
-    badIf ((ps.zip f.params).all fun (a, t) => a.ty == t) .argType ++ badIf (ps.all (operandOk e)) .argOperand
+    badIf ((ps.zip f.params).all fun (a, t) => a.ty == t) .argType ++ badIf (ps.all (operandOk e)) .argOperand ++
+    badIf (e.wOk reg f.ty) .regRetyped
+  | .ext _ t reg => badIf (e.wOk reg (.prim t)) .regRetyped
   | .letBinding v x => badIf (operandOk e x) .letOperand ++ badIf (v.ty == x.ty) .letType
   | .binding v x =>
     badIf (operandOk e x) .asgOperand ++ badIf (v.ty == x.ty) .asgType ++ badIf v.mutable .asgImmutable ++
     badIf (e.declOk v) .asgDecl
-  | .condExpr l r _ _ =>
+  | .condExpr l r _ reg =>
     badIf (operandOk e l) .cmpLeft ++ badIf (operandOk e r) .cmpRight ++ badIf (l.ty == r.ty) .cmpDiffer ++
-    badIf l.ty.isPrim .cmpNonPrim
+    badIf l.ty.isPrim .cmpNonPrim ++ badIf (e.wOk reg (.prim .bool)) .regRetyped
+  | .logicCond _ _ _ reg => badIf (e.wOk reg (.prim .bool)) .regRetyped
   | .ifCondExpr x _ _ => badIf (operandOk e x) .condOperand
   | .fnReturn x | .fnReturnWithLabel x | .jumpFnReturn x =>
     badIf (operandOk e x) .retOperand ++ badIf (x.ty == resTy) .retType
@@ -133,7 +144,7 @@ def typedGo (cOk : ConstSem → Bool) (fOk : Func → Bool) (resTy : Ty) : List 
   | i :: rest, e, pos =>
     (tyStepBad cOk fOk resTy e i).map (fun b => (pos, b)) ++ typedGo cOk fOk resTy rest (tyStepEnv e i) (pos + 1)
 
-def TyEnv.init : TyEnv := { regs := [], decls := [] }
+def TyEnv.init : TyEnv := { regs := [], decls := [], written := [] }
 
 /-- the two checks that the recorded findings F8 (a call with fewer arguments than the callee
 declares is accepted) and F9 (the value of a return nested in an if / loop body is not compared
